@@ -311,6 +311,41 @@ def run_l3(chk, P):
                         detail={'managers': flds, 'bound': b})
 
 
+def run_m1(chk, P):
+    """min-length coupling: the number of blocks handed to the multi-lane kernel and the amount subtracted from every lane's
+    remaining length derive from the same lane-minimum search(es) on every path"""
+    r = chk.rule('M1', 'in every out-of-order manager routine the length argument of the multi-lane kernel call and the vector subtracted '
+                       'from the lane lengths before it originate from the same (v)phminposuw result(s) (a lane whose counter drops by more '
+                       'than the kernel processed is completed early with a wrong result)', floor=60)
+    from .. import asmfacts
+    nsub_only = ncall_only = 0
+    for rel, name, res in asmfacts.all_functions():
+        subs = sorted((n[1], frozenset(n[2])) for n in res['notes'] if n[0] == 'minsub')
+        calls = sorted((n[1], n[2], n[3]) for n in res['notes'] if n[0] == 'callpv')
+        if not subs or not calls:
+            nsub_only += bool(subs)
+            ncall_only += bool(calls)
+            continue
+        prev = res['entry'] - 1
+        for ca, tgt, regs in calls:
+            mine = [(a, pv) for a, pv in subs if prev < a < ca]
+            prev = ca
+            if not mine:
+                continue
+            for reg, pv in sorted(regs.items()):
+                pv = frozenset(pv)
+                key = '%s@%#x:%s' % (name, ca - res['entry'], reg)
+                loc = res['lines'].get(ca, rel)
+                bad = [(a, spv) for a, spv in mine if spv != pv]
+                fmt = lambda st: '{%s}' % ', '.join(('+%#x' % (x - res['entry'])) if isinstance(x, int) else 'other' for x in sorted(st, key=str))
+                r.check(not bad, key, loc,
+                        '%s: %s passed to %s derives from the lane-minimum search(es) at %s, but the vector subtracted from the lane lengths at '
+                        '+%#x derives from %s' % (name, reg, tgt, fmt(pv), (bad[0][0] - res['entry']) if bad else 0, fmt(bad[0][1]) if bad else ''),
+                        detail={'kernel': tgt})
+    chk.extra['m1_routines_with_only_a_subtraction'] = nsub_only
+    chk.extra['m1_routines_with_only_a_kernel_length'] = ncall_only
+
+
 def run(chk):
     P = cf.Program()
     chk.explanation = ('NOT decided: that lane contents never influence another lane inside the SIMD kernels, and that min-length scheduling '
@@ -318,7 +353,10 @@ def run(chk):
                        'co-scheduled jobs): the C multi-buffer managers pop/park on submit and push/clear/complete on every completed return, '
                        'and neutralise idle lanes on flush; every assembled out-of-order manager with a job_in_lane array that completes a '
                        'job also clears its slot and returns the lane, submit parks the job argument, and the stage bit is the manager\'s own; '
-                       'every mode or algorithm parked in a manager with 16-bit lane lengths is bounded by validation.')
+                       'every mode or algorithm parked in a manager with 16-bit lane lengths is bounded by validation; the block count handed to '
+                       'the multi-lane kernel and the amount subtracted from all lane lengths derive from the same lane-minimum search '
+                       '(provenance domain over the assembled routines).')
     run_l1(chk, P)
     run_l2(chk, P)
     run_l3(chk, P)
+    run_m1(chk, P)
